@@ -9,8 +9,9 @@ import logging, pickle
 from ..core import Violation
 
 ID = 'C10'
-MODULES = ['OFModel.Frame']
-RULE = ('op sequences over {Frame(ndarray), from_jpg with/without dims, Frame(dict), Frame(frame, data?, format?), Frame(frame.image), copy, rw, ro, rgb, '
+MODULES = ['OFModel.Frame', 'OFModel.FrameBlob']
+PROP_FILES = ['C10', 'C10FrameBlob']
+RULE = ('op sequences over {Frame(ndarray), from_jpg with/without dims, from_blob (jpg / jpg padded after EOI / png; no, right or WRONG dims; random sequences only), first pixel access of a lazy frame (raises on wrong dims; the sequence goes on), Frame(dict), Frame(frame, data?, format?), Frame(frame.image), copy, rw, ro, rgb, '
         'bgr, gray, rw_rgb, rw_bgr, ro_rgb, ro_bgr, .image, .jpg, pickle round trip, in-place pixel write} applied to any live frame: exhaustive over a '
         '17-symbol alphabet x target frame from 12 start frames (rw/ro x BGR/RGB/GRAY arrays, jpg-only BGR/RGB/GRAY, decoded jpg BGR/GRAY, data-only; sizes '
         '1x1, 2x3, 5x4, 16x16) to length 3 in the quick tier (third op on the start frame or the newest frame) and to length 4 in the thorough tier (every '
@@ -69,6 +70,15 @@ def blob(cseed, n, shape):
         if len(_blob) > 20000: _blob.clear()
         ok, buf = _cv2.imencode('.jpg', content(cseed, n, shape))
         b = _blob[k] = bytes(buf)
+    return b
+
+
+def blob_of(cseed, n, shape, is_jpg, padded):
+    if is_jpg: return blob(cseed, n, shape) + (b'\x00\x00\x00' if padded else b'')
+    k = ('png', cseed, n, shape)
+    b = _blob.get(k)
+    if b is None:
+        b = _blob[k] = bytes(_cv2.imencode('.png', content(cseed, n, shape))[1])
     return b
 
 
@@ -169,6 +179,15 @@ class World:
             b = self.blobs[n] = blob(self.cseed, n, shape_of(self.size, fmt)) + (b'\x00' if n % 3 == 2 else b'')    # every third JPEG is padded after its EOI marker (MJPEG chunks)
             b = bytearray(b) if n % 2 else b
             res = F.from_jpg(b, {'k': n}, self.size[0], self.size[1], fmt) if dims else F.from_jpg(b, {'k': n}, format=(None if fmt == 'BGR' and n % 2 else fmt))
+        elif k == 'fromBlob':
+            # Frame.from_blob: jpg (padded after EOI or not) / png, with right, wrong or no dims (extended model, driver op c10.blob)
+            _, n, is_jpg, padded, tshape, dims, fmt = op
+            b = blob_of(self.cseed, n, shape_of(tuple(tshape), fmt), is_jpg, padded)
+            self.blobs[n] = b
+            b = bytearray(b) if n % 2 else b
+            res = F.from_blob(b, {'k': n}, dims[0], dims[1], fmt) if dims else F.from_blob(b, {'k': n}, format=(None if fmt == 'BGR' and n % 2 else fmt))
+        elif k == 'touchImage':
+            fr[op[1]].image
         elif k == 'fromData':
             res = F({'d': 1})
         elif k == 'fromFrame':
@@ -343,13 +362,19 @@ def run_case(case, every_step):
             except Exception: pass
             if k == len(ops) - 2: w.snapshot_ro()
             continue
+        raised = False
         try:
             ri, jv = w.apply(op)
         except Exception as e:
-            w.viol(f'exception:{op[1] if op[0] == "view" else op[0]}:{type(e).__name__}', f'{op} raised {type(e).__name__}: {str(e)[:100]}')
-            recs.append(None)
-            break
-        recs.append((ri, None if jv is None else bytes(jv), w.observe()))
+            if case.get('blob') and isinstance(e, AssertionError):
+                # extended model (c10.blob): a pixel access of a lazy frame with wrong declared dims / from_blob of a png with wrong dims raises; the model
+                # says which calls raise and what the state is afterwards
+                ri = jv = None; raised = True
+            else:
+                w.viol(f'exception:{op[1] if op[0] == "view" else op[0]}:{type(e).__name__}', f'{op} raised {type(e).__name__}: {str(e)[:100]}')
+                recs.append(None)
+                break
+        recs.append((ri, None if jv is None else bytes(jv), w.observe(), raised))
     return w, recs
 
 
@@ -389,7 +414,8 @@ class Batch:
             if self.pool is None:
                 from concurrent.futures import ThreadPoolExecutor
                 self.pool = ThreadPoolExecutor(1)
-            fut = self.pool.submit(drv.batch, [{'op': 'c10.run', 'ops': c['ops'], 'last': not self.every} for c, _, _, _ in items])
+            fut = self.pool.submit(drv.batch, [({'op': 'c10.blob', 'ops': c['ops']} if c.get('blob') and self.every else
+                                                {'op': 'c10.run', 'ops': c['ops'], 'last': not self.every}) for c, _, _, _ in items])
         self._compare()
         self.pending = (items, fut) if fut else None
         if final:
@@ -410,18 +436,18 @@ class Batch:
             ok = True
             for k, (rec, st) in enumerate(zip(recs, steps)):
                 if rec is None: break          # implementation raised: reported by the oracle
-                ri, jv, obs = rec
+                ri, jv, obs, raised = rec
                 try:
                     mobs = me.canon(st)
                     mj = None if st['jpg'] is None else me.enc(st['jpg'])
                 except Exception as e:
                     mobs, mj = f'model term not evaluable: {type(e).__name__}: {e}', None
-                if st['res'] != ri or mobs != obs or mj != jv:
+                if st['res'] != ri or mobs != obs or mj != jv or bool(st.get('raised', False)) != raised:
                     ok = False
                     if not violated:    # where the oracle already reports a defect the model (of the fixed code) must differ
                         res.disagreements.append({'point': f'c10.run step {k if self.every else len(case["ops"]) - 1}', 'case': case,
-                                                  'impl': {'res': ri, 'jpg': jv is not None, **brief(obs)},
-                                                  'model': {'res': st['res'], 'jpg': mj is not None, **(brief(mobs) if isinstance(mobs, tuple) else {'error': mobs})}})
+                                                  'impl': {'res': ri, 'jpg': jv is not None, 'raised': raised, **brief(obs)},
+                                                  'model': {'res': st['res'], 'jpg': mj is not None, 'raised': st.get('raised'), **(brief(mobs) if isinstance(mobs, tuple) else {'error': mobs})}})
                     break
             if ok: res.traces_validated += 1
 
@@ -490,7 +516,7 @@ def gen_random(ctx, batch, count):
     malformed = {'tried': 0, 'rejected': 0}
     for _ in range(count):
         size = list(rng.choice(SIZES))
-        case = {'ops': [], 'size': size, 'cseed': rng.randrange(1, 1 << 30)}
+        case = {'ops': [], 'size': size, 'cseed': rng.randrange(1, 1 << 30), 'blob': True}     # 'blob': compared with the extended model (c10.blob)
         w = World(case)
         n = 0
         length = rng.randint(5, 40)
@@ -499,7 +525,17 @@ def gen_random(ctx, batch, count):
             if not w.frames or r < 0.08:
                 c = rng.random()
                 if c < 0.55: op = ['fromArr', n, rng.random() < 0.6, rng.choice(['BGR', 'RGB', 'GRAY'])]
-                elif c < 0.9: op = ['fromJpg', n, rng.choice(['BGR', 'RGB', 'GRAY']), rng.random() < 0.6]
+                elif c < 0.75: op = ['fromJpg', n, rng.choice(['BGR', 'RGB', 'GRAY']), rng.random() < 0.6]
+                elif c < 0.93:
+                    # Frame.from_blob: jpg / padded jpg / png, no dims / right dims / WRONG dims (transposed, off by one, 1x1)
+                    h0, w0 = size
+                    d = rng.random()
+                    if d < 0.3: dims = None
+                    elif d < 0.55: dims = [h0, w0]
+                    else:
+                        dims = list(rng.choice([(w0, h0), (h0 + 1, w0), (h0, w0 + 1), (h0 * 2, w0), (1, 1)]))
+                        if dims == [h0, w0]: dims = [h0 + 1, w0]
+                    op = ['fromBlob', n, rng.random() < 0.7, rng.random() < 0.4, [h0, w0], dims, rng.choice(['BGR', 'RGB', 'GRAY'])]
                 else: op = ['fromData']
                 n += 1
             elif r < 0.2:
@@ -518,11 +554,12 @@ def gen_random(ctx, batch, count):
                 continue
             else:
                 t = rng.randrange(len(w.frames))
-                a = rng.choice(ABSTRACT + VIEWS + ['write', 'write', 'jpg'])
-                op = concretise(a, t, w.frames[t].format, n)
+                a = rng.choice(ABSTRACT + VIEWS + ['write', 'write', 'jpg', 'touch'])
+                op = ['touchImage', t] if a == 'touch' else concretise(a, t, w.frames[t].format, n)
                 if a == 'write': n += 1
             case['ops'].append(op)
             try: w.apply(op)
+            except AssertionError: pass      # an access / from_blob call that raises is part of the sequence (the model says which ones raise)
             except Exception: break
         batch.add(case)
     return malformed
@@ -531,7 +568,10 @@ def gen_random(ctx, batch, count):
 def bad_dims_campaign(ctx, n):
     """A jpg-backed frame whose declared height / width do not match the JPEG (header of a foreign publisher, transposed values): the first pixel access
     raises AssertionError; a caller that survives it (try/except around one bad frame) goes on using the frame.  Whatever it does then, the global clauses
-    still hold - in particular a cached JPEG is never attached to pixels that can still change.  Harness-only (the model has no malformed frames)."""
+    still hold - in particular a cached JPEG is never attached to pixels that can still change.  Every case is ALSO replayed through the extended model
+    (driver op c10.blob, OFModel/FrameBlob.lean: fromBlob with wrong dims, touchImage): which calls raise, and the whole observable state after every op
+    (per frame format / writability / jpg / image identity class, every array's pixels and flag, the shares-memory partition), are compared.  One case in
+    four skips the initial access, so that the first view / copy / pickle op meets the still lazy frame."""
     res, rng = ctx.result, ctx.rng
     if ctx.replay:
         cases = [ctx.replay['case']] if (ctx.replay.get('case') or {}).get('kind') == 'bad-dims' else []
@@ -548,6 +588,7 @@ def bad_dims_campaign(ctx, n):
                 ops.append([a, t, nn]); nn += 1
             cases.append({'kind': 'bad-dims', 'size': [h, wd], 'dims': list(dims), 'fmt': rng.choice(['BGR', 'RGB', 'GRAY']), 'cseed': rng.randrange(1, 1 << 30), 'ops0': ops})
     raised = 0
+    tie = []
     for c in cases:
         # concretise against the growing frame list: target -1 = the newest frame
         w_ops = []
@@ -555,32 +596,71 @@ def bad_dims_campaign(ctx, n):
             w_ops.append(('A', a, t, nn))
         c2 = dict(c); c2['ops'] = []
         # ops are concretised lazily: World.apply wants absolute targets, the newest frame is only known while running
-        out, r = _run_bad_dims(c2, w_ops)
+        out, r, trace = _run_bad_dims(c2, w_ops)
         raised += r
+        if not out and trace is not None: tie.append((c, trace))
         res.note({'bad_dims': c['dims'], 'size': c['size'], 'fmt': c['fmt'], 'ops': [o[1] for o in w_ops]}, nontrivial=False)
         for key, what in out[:1]: res.violations.append(Violation(key, what, dict(c, ops=[])))
-    res.extra['bad_dims'] = {'cases': len(cases), 'first_access_raised': raised}
+    res.extra['bad_dims'] = {'cases': len(cases), 'first_access_raised': raised, 'replayed_through_model': 0, 'model_steps_compared': 0, 'model_raises': 0}
+    drv = ctx.driver
+    if drv and tie:
+        outs = drv.batch([{'op': 'c10.blob', 'ops': tr['mops']} for _, tr in tie])
+        for (c, tr), m in zip(tie, outs):
+            case = dict(c, ops=tr['mops'])
+            if 'err' in m:
+                res.disagreements.append({'point': 'c10.blob bad-dims', 'case': case, 'impl': 'ran', 'model': m}); continue
+            me = ModelEval(tr['world'])
+            ok = True
+            for k, ((ri, rz, obs), st) in enumerate(zip(tr['recs'], m['steps'])):
+                try: mobs = me.canon(st)
+                except Exception as e: mobs = f'model term not evaluable: {type(e).__name__}: {e}'
+                res.extra['bad_dims']['model_steps_compared'] += 1
+                res.extra['bad_dims']['model_raises'] += bool(st.get('raised'))
+                if bool(st.get('raised')) != rz or st['res'] != ri or (obs is not None and mobs != obs):
+                    ok = False
+                    res.disagreements.append({'point': f'c10.blob bad-dims step {k}', 'case': case,
+                                              'impl': {'res': ri, 'raised': rz, **(brief(obs) if obs is not None else {})},
+                                              'model': {'res': st['res'], 'raised': st.get('raised'), **(brief(mobs) if isinstance(mobs, tuple) else {'error': mobs})}})
+                    break
+            if ok:
+                res.extra['bad_dims']['replayed_through_model'] += 1
+                res.traces_validated += 1
 
 
 def _run_bad_dims(case, w_ops):
+    """returns (violations, first access raised, trace for the model replay: model ops + per op (result frame, raised, observation))"""
     w = World(case)
     h, wd = case['size']; dh, dw = case['dims']; fmt = case['fmt']
-    f = _Frame.from_jpg(blob(case['cseed'], 0, shape_of((h, wd), fmt)), {'k': 0}, dh, dw, fmt)
+    b = w.blobs[0] = blob(case['cseed'], 0, shape_of((h, wd), fmt))
+    f = _Frame.from_jpg(b, {'k': 0}, dh, dw, fmt)
     w.frames.append(f)
-    try: f.image; raised = 0
-    except Exception: raised = 1
+    mops, recs = [['fromBlob', 0, True, False, [h, wd], [dh, dw], fmt]], []
+    try: recs.append((0, False, w.observe()))
+    except (AssertionError, ValueError): recs.append((0, False, None))
+    raised = 0
+    if case.get('touch_first', case['cseed'] % 4 != 0):
+        try: f.image
+        except Exception: raised = 1
+        mops.append(['touchImage', 0])
+        try: recs.append((None, bool(raised), w.observe()))
+        except (AssertionError, ValueError): recs.append((None, bool(raised), None))
     for _, a, t, nn in w_ops:
         tgt = 0 if t == 0 else len(w.frames) - 1
+        ri, rz = None, False
+        op = concretise(a, tgt, w.frames[tgt].format, nn)
         try:
-            op = concretise(a, tgt, w.frames[tgt].format, nn)
-            w.apply(op, check=False)
-        except (AssertionError, ValueError): pass
-        except Exception as e: return [('bad-dims:exception', f'{a}: {type(e).__name__}: {e}')], raised
-        try: w.observe()
-        except (AssertionError, ValueError): pass
+            ri, _ = w.apply(op, check=False)
+        except AssertionError:
+            rz = True
+            if not raised and tgt == 0: raised = 1
+        except ValueError: rz = True
+        except Exception as e: return [('bad-dims:exception', f'{a}: {type(e).__name__}: {e}')], raised, None
+        mops.append(op)
+        try: recs.append((ri, rz, w.observe()))
+        except (AssertionError, ValueError): recs.append((ri, rz, None))
         if w.violations:
-            return [('bad-dims:' + k, what + f' - frame made by from_jpg with dims {dh}x{dw} for a {h}x{wd} {fmt} JPEG, first pixel access raised={bool(raised)}, then ops {[o[1] for o in w_ops]}') for k, what in w.violations], raised
-    return [], raised
+            return [('bad-dims:' + k, what + f' - frame made by from_jpg with dims {dh}x{dw} for a {h}x{wd} {fmt} JPEG, first pixel access raised={bool(raised)}, then ops {[o[1] for o in w_ops]}') for k, what in w.violations], raised, None
+    return [], raised, {'mops': mops, 'recs': recs, 'world': w}
 
 
 def run(ctx):
